@@ -52,6 +52,35 @@ def full(case):
             "sites": [], "mutations": [], "individuals": [], "populations": [], "migrations": []}
 
 
+def coord(d, x):
+    """double coordinate of lattice position x: explicit table (non-dyadic family) or x*scale"""
+    return d["coords"][x] if "coords" in d else x * d["scale"]
+
+
+def cspan(d, l, r):
+    """the span the API reports: right - left in double arithmetic"""
+    return coord(d, r) - coord(d, l)
+
+
+def desc_exact(d):
+    return "coords" not in d and is_exact(d["scale"])
+
+
+def build_tc(case):
+    d = case["desc"]
+    if "coords" not in d:
+        return gen_ts.build_tables(full(case))
+    import tskit
+    tc = tskit.TableCollection(d["coords"][d["L"]])
+    for fl, t in d["nodes"]:
+        tc.nodes.add_row(flags=fl, time=t)
+    for l, r, p, c in d["edges"]:
+        tc.edges.add_row(d["coords"][l], d["coords"][r], p, c)
+    tc.sort()
+    tc.build_index()
+    return tc
+
+
 def is_exact(scale):
     return scale in (1, 0.5, 0.25, 2.5, 8, 2, 4)
 
@@ -129,7 +158,9 @@ def call_args(case):
         kw["within"] = list(case["within"])
     if case["between"] is not None:
         kw["between"] = [list(x) for x in case["between"]]
-    if case["min_span2"] is not None:
+    if "min_span_f" in case:
+        kw["min_span"] = case["min_span_f"]
+    elif case["min_span2"] is not None:
         kw["min_span"] = case["min_span2"] / 2 * s
     mt2 = case["max_time2"]
     if mt2 == "inf":
@@ -144,8 +175,7 @@ def exc(e):
 
 
 def lattice_map(desc):
-    s = desc["scale"]
-    return {float(x * s): x for x in range(desc["L"] + 1)}
+    return {float(coord(desc, x)): x for x in range(desc["L"] + 1)}
 
 
 def probe_pair(res, a, b):
@@ -202,8 +232,7 @@ def read_result(res, lat, probe=()):
 
 def observe_case(case):
     import tskit  # noqa: F401
-    desc = full(case)
-    tc = gen_ts.build_tables(desc)
+    tc = build_tc(case)
     lat = lattice_map(case["desc"])
     edges = [[lat[float(e.left)], lat[float(e.right)], int(e.parent), int(e.child)] for e in tc.edges]
     out = {"edges": edges}
@@ -293,8 +322,10 @@ def unfiltered(desc, a, b):
 
 
 def span_ok(case, l, r):
-    s = case["desc"]["scale"]
-    return (r * s - l * s) > case["min_span2"] / 2 * s
+    d = case["desc"]
+    if "min_span_f" in case:            # "spans greater than min_span", span = right - left as reported
+        return cspan(d, l, r) > case["min_span_f"]
+    return cspan(d, l, r) > case["min_span2"] / 2 * d["scale"]
 
 
 def time_ok(case, u, strict):
@@ -322,17 +353,17 @@ def close(x, y, exact):
 def check_run(case, name, sp, ss, run, exp, key_prefix, out):
     d = case["desc"]
     s = d["scale"]
-    exact = is_exact(s)
+    exact = desc_exact(d)
     fail = lambda k, m: out.append((key_prefix + k, "[%s] %s" % (name, m)))  # noqa: E731
     if "error" in run:
         fail("unexpected-error", run["error"])
         return
     nseg = sum(len(v) for v in exp.values())
-    tot = sum((r - l) for v in exp.values() for l, r, _u in v)
+    tot = sum(cspan(d, l, r) for v in exp.values() for l, r, _u in v)
     if run["num_segments"] != nseg:
         fail("num_segments", "num_segments=%r expected %r" % (run["num_segments"], nseg))
-    if not close(run["total_span"], tot * s, exact):
-        fail("total_span", "total_span=%r expected %r" % (run["total_span"], tot * s))
+    if not close(run["total_span"], tot, exact):
+        fail("total_span", "total_span=%r expected %r" % (run["total_span"], tot))
     if not (sp or ss):
         for f in ("num_pairs", "len", "pairs"):
             if run.get(f) != "IdentityPairsNotStoredError":
@@ -351,9 +382,9 @@ def check_run(case, name, sp, ss, run, exp, key_prefix, out):
                 if got != "KeyError":
                     fail("pair-lookup", "result[%r] -> %r, pair has no segment" % (order, got))
             elif not isinstance(got, list) or got[0] != want[0] or \
-                    not close(got[1], sum(r - l for l, r, _ in e) * s, exact):
+                    not close(got[1], sum(cspan(d, l, r) for l, r, _ in e), exact):
                 fail("pair-lookup", "result[%r] -> %r, expected %d segments span %r"
-                     % (order, got, want[0], sum(r - l for l, r, _ in e) * s))
+                     % (order, got, want[0], sum(cspan(d, l, r) for l, r, _ in e)))
     if run["pairs"] != [list(p) for p in sorted(exp)]:
         fail("pairs", "pairs=%r expected %r" % (run["pairs"][:8], sorted(exp)[:8]))
         return
@@ -366,8 +397,8 @@ def check_run(case, name, sp, ss, run, exp, key_prefix, out):
             continue
         if item["n"] != len(e):
             fail("pair-len", "len(%d,%d)=%r expected %r" % (a, b, item["n"], len(e)))
-        if not close(item["span"], sum(r - l for l, r, _ in e) * s, exact):
-            fail("pair-total_span", "total_span(%d,%d)=%r expected %r" % (a, b, item["span"], sum(r - l for l, r, _ in e) * s))
+        if not close(item["span"], sum(cspan(d, l, r) for l, r, _ in e), exact):
+            fail("pair-total_span", "total_span(%d,%d)=%r expected %r" % (a, b, item["span"], sum(cspan(d, l, r) for l, r, _ in e)))
         if not item["sym"]:
             fail("pair-symmetry", "result[(b,a)] differs from result[(a,b)]")
         if not ss:
@@ -386,8 +417,8 @@ def check_run(case, name, sp, ss, run, exp, key_prefix, out):
         if item["n"] != len(got):
             fail("pair-len-vs-stored", "len=%r, %d stored" % (item["n"], len(got)))
         if all(isinstance(x[0], int) and isinstance(x[1], int) for x in got) and \
-                not close(item["span"], sum((r * s - l * s) for l, r, _ in got), exact):
-            fail("pair-span-vs-stored", "total_span=%r, stored sum %r" % (item["span"], sum((r - l) * s for l, r, _ in got)))
+                not close(item["span"], sum(cspan(d, l, r) for l, r, _ in got), exact):
+            fail("pair-span-vs-stored", "total_span=%r, stored sum %r" % (item["span"], sum(cspan(d, l, r) for l, r, _ in got)))
     if ss:
         stored = [tuple(x) for it in run["per_pair"] if not isinstance(it.get("segs", ""), str) for x in it["segs"]]
         if run["num_segments"] != len(stored):
@@ -427,7 +458,7 @@ def oracle_case(case, obs):
             else:
                 check_run(case, name, sp, ss, run, exp, "", out)
     # no filters: disjoint and covering exactly where the pair has a common ancestor
-    nofilter = case["min_span2"] == 0 and case["max_time2"] in (None, "inf")
+    nofilter = case["min_span2"] == 0 and "min_span_f" not in case and case["max_time2"] in (None, "inf")
     tt = obs["r"]["TT"]
     if nofilter and "error" not in tt and isinstance(tt.get("pairs"), list):
         got = {tuple(p): it["segs"] for p, it in zip(tt["pairs"], tt["per_pair"]) if not isinstance(it.get("segs", ""), str)}
@@ -484,7 +515,7 @@ def coq_obs(run, scale):
 
 
 def coq_term(case, obs):
-    if "invalid" in obs or not obs.get("api_equal"):
+    if "invalid" in obs or not obs.get("api_equal") or "coords" in case["desc"]:
         return None
     s = case["desc"]["scale"]
     tt, tf, ff = obs["r"]["TT"], obs["r"]["TF"], obs["r"]["FF"]
@@ -773,12 +804,103 @@ class IbdBigNodes(IbdBase):
         return []
 
 
-FAMILIES = [IbdShapes, IbdSmall, IbdLarge, IbdErrors, IbdBigNodes]
+DECIMALS = [0.1, 0.2, 0.3, 0.4, 0.6, 0.7, 0.9, 1.0, 1.1, 1.3, 1.7, 2.2, 2.3, 3.1]
+
+
+class IbdDecimal(IbdBase):
+    """NON-DYADIC coordinates (breakpoints 0.1, 0.2, 0.4, 0.7, 0.9, ...): guards the FLOATING-POINT
+    form of the min_span comparison.  The Coq model lives on exact lattice coordinates and cannot see
+    one-ulp effects; here min_span is the double value of some `right - left` or a nearby decimal
+    (0.3 vs 0.4-0.1 = 0.30000000000000004, 0.7 vs 0.9-0.2 = 0.7 ...).  Expected: a segment is
+    returned iff `seg.right - seg.left > min_span` in double arithmetic (the span the API reports),
+    evaluated (a) on the positional oracle's unfiltered segments and (b) on the implementation's own
+    unfiltered result.  Oracle only."""
+    name = "ibd_decimal"
+    coq = False
+
+    def generate(self, rng, tier):
+        n = 0
+        want = 160 if tier == "quick" else 2500
+        # the two witnesses of seeded change C19-3 first
+        for coords, ms in (([0, 0.1, 0.4, 1.0], 0.3), ([0, 0.2, 0.9, 1.0], 0.7)):
+            for grp in ((None, None), ([0, 1, 2], None), (None, [[0], [1, 2]])):
+                yield {"desc": {"L": 3, "scale": 1, "coords": coords, "nodes": [[1, 0], [1, 0], [1, 0], [0, 1], [0, 2]],
+                                "edges": [[1, 2, 3, 0], [1, 2, 3, 1], [0, 3, 4, 2], [0, 1, 4, 0], [0, 1, 4, 1],
+                                          [2, 3, 4, 0], [2, 3, 4, 1], [1, 2, 4, 3]]},
+                       "within": grp[0], "between": grp[1], "min_span2": 1, "min_span_f": ms, "max_time2": None}
+        while n < want:
+            c = make_case(rng, 8, 6, exact_only=True)
+            d = c["desc"]
+            if len(d["edges"]) < 2:
+                continue
+            L = d["L"]
+            start = rng.randrange(0, len(DECIMALS) - L)
+            pool = sorted(rng.sample(DECIMALS, L)) if rng.random() < 0.6 else DECIMALS[start:start + L]
+            d["coords"] = [0] + pool
+            d["scale"] = 1
+            spans = sorted({d["coords"][r] - d["coords"][l] for l in range(L + 1) for r in range(l + 1, L + 1)})
+            r = rng.random()
+            if r < 0.45:
+                ms = rng.choice(spans)                                   # the double value of some right-left
+            elif r < 0.9:
+                ms = round(rng.choice(spans), 1)                         # the nearby decimal
+            else:
+                ms = rng.choice([0.0, 0.05, 0.15, 0.25])
+            c["min_span_f"] = ms
+            c["min_span2"] = 1
+            if rng.random() < 0.7:
+                c["max_time2"] = None
+            n += 1
+            yield c
+
+    def observe(self, case):
+        obs = observe_case(case)
+        # the implementation's own unfiltered result, raw doubles
+        tc = build_tc(case)
+        kw = call_args(case)
+        kw.pop("min_span", None)
+        try:
+            un = tc.tree_sequence().ibd_segments(store_segments=True, **kw)
+            fi = tc.tree_sequence().ibd_segments(store_segments=True, min_span=case["min_span_f"], **kw)
+            obs["raw_unfiltered"] = sorted([int(a), int(b), float(x.left), float(x.right), int(x.node)]
+                                           for (a, b), sl in un.items() for x in sl)
+            obs["raw_filtered"] = sorted([int(a), int(b), float(x.left), float(x.right), int(x.node)]
+                                         for (a, b), sl in fi.items() for x in sl)
+        except Exception as e:
+            obs["raw_error"] = exc(e)
+        return obs
+
+    def oracle(self, case, obs):
+        out = oracle_case(case, obs)
+        if "raw_error" in obs:
+            out.append(("unexpected-error", obs["raw_error"]))
+        elif "raw_unfiltered" in obs:
+            ms = case["min_span_f"]
+            want = [x for x in obs["raw_unfiltered"] if x[3] - x[2] > ms]
+            if want != obs["raw_filtered"]:
+                diff = [x for x in want if x not in obs["raw_filtered"]] + [x for x in obs["raw_filtered"] if x not in want]
+                out.append(("min_span-float-comparison",
+                            "min_span=%r: filtered result differs from {seg in unfiltered : seg.right - seg.left > min_span} at %r"
+                            % (ms, diff[:3])))
+        return out
+
+    def describe(self, case, obs):
+        d = case["desc"]
+        spans = {d["coords"][r] - d["coords"][l] for l in range(d["L"] + 1) for r in range(l + 1, d["L"] + 1)}
+        return {"mode": "between" if case["between"] is not None else ("within" if case["within"] is not None else "default"),
+                "min_span": "equals-a-span" if case["min_span_f"] in spans else "decimal",
+                "segments": min(obs["r"]["FF"]["num_segments"], 20) // 5 * 5 if "r" in obs and "error" not in obs["r"]["FF"] else "error"}
+
+    def shrink(self, case):
+        return []
+
+
+FAMILIES = [IbdShapes, IbdSmall, IbdLarge, IbdErrors, IbdBigNodes, IbdDecimal]
 
 NOT_COVERED = [
     "tsk_ibd_finder -> IbdSpec refinement is not proved in Coq (ibd_alg_refines_spec_partial); tied per run on the generated cases",
     "node ids equal to num_nodes in within/between (C09 finding F3: guard `>`), unsorted / invalid table collections",
     "AVL tree balancing and blkalloc internals of identity_segments (modelled as a key-sorted association list)",
     "C integer widths: the model computes the pair key min*N+max in Z (no 32-bit wrap); only the oracle-level family ibd_bignodes (50000-100000 node rows, keys > 2^31) guards them",
-    "floating point: coordinates are lattice*scale with exactly representable scales in the Coq correspondence; scale 1/3 is oracle-only with a 1e-9 tolerance on total_span",
+    "floating point: the Coq model is over exact lattice coordinates (lattice*scale with exactly representable scale) and cannot see ulp effects; the double-arithmetic form of `right - left > min_span` is guarded by the oracle-only family ibd_decimal (non-dyadic breakpoints, min_span equal to the double of some right-left or a nearby decimal); scale 1/3 is oracle-only with a 1e-9 tolerance on total_span",
 ]
